@@ -100,6 +100,9 @@ func NewRun(prop string, args []string) *Run {
 func (r *Run) Thorough() bool { return r.Tier == "thorough" }
 
 func (r *Run) loadFindings() {
+	if os.Getenv("VERIF_IGNORE_KNOWN") != "" { // development aid: see the witnesses of known cells
+		return
+	}
 	b, err := os.ReadFile(filepath.Join(r.Root, "known_findings.jsonl"))
 	if err != nil {
 		return
